@@ -152,6 +152,31 @@ func mergeToWriter(segments []*SegmentBase, drops []*roaring.Bitmap,
 				return nil, 0, 0, nil, nil, 0, err
 			}
 		}
+	} else {
+		// nothing survives: every document of every segment is dropped
+		newDocNums = make([][]uint64, len(segments))
+		for segI, segment := range segments {
+			segNewDocNums := make([]uint64, segment.numDocs)
+			for docNum := range segNewDocNums {
+				segNewDocNums[docNum] = docDropped
+			}
+			newDocNums[segI] = segNewDocNums
+		}
+		// readers take a field record at offset 0 for an absent field, so
+		// when the inputs have fields keep the first record of the fields
+		// section away from offset 0
+		hasFields := false
+		for _, segment := range segments {
+			if len(segment.fieldsInv) > 0 {
+				hasFields = true
+			}
+		}
+		if hasFields && cr.Count() == 0 {
+			_, err = cr.Write([]byte{0})
+			if err != nil {
+				return nil, 0, 0, nil, nil, 0, err
+			}
+		}
 	}
 
 	// we can persist the fields section index now, this will point
